@@ -185,7 +185,7 @@ func genC08(rng *rand.Rand, n int, emit func(Case), dist map[string]int) {
 				q.Add(tag, v)
 			}
 			req := httptest.NewRequest(http.MethodGet, "/?"+q.Encode(), nil)
-			c := e.NewContext(req, httptest.NewRecorder())
+			c := recycledContext(e, req, httptest.NewRecorder())
 			var err error
 			panicked := false
 			func() {
@@ -333,7 +333,7 @@ func genC08(rng *rand.Rand, n int, emit func(Case), dist map[string]int) {
 		}
 		chains := [][]callT{mkChain(0), mkChain(10)}
 		req := httptest.NewRequest(http.MethodGet, "/?"+q.Encode(), nil)
-		c := e.NewContext(req, httptest.NewRecorder())
+		c := recycledContext(e, req, httptest.NewRecorder())
 		b := echo.QueryParamsBinder(c).FailFast(ff)
 		for ci, chain := range chains {
 			if ci == 1 {
